@@ -126,6 +126,9 @@ class StandardRequestHandler(ControlRequestHandler):
             skiplisted = functools.reduce(operator.__or__, (f(setup) for f in self._skiplist), Const(0))
             m.d.comb += interface.claim.eq(~skiplisted)
 
+            # Keeps track of whether we've sent a GET_DESCRIPTOR data packet we're expecting an ACK to.
+            expecting_ack = Signal()
+
             with m.FSM(domain="usb"):
 
                 # IDLE -- not handling any active request
@@ -134,6 +137,10 @@ class StandardRequestHandler(ControlRequestHandler):
                     m.d.usb += [
                         # Start at the beginning of our next / fresh GET_DESCRIPTOR request.
                         get_descriptor_handler.start_position  .eq(0),
+
+                        # A fresh request hasn't sent anything yet; don't let an ACK left unanswered
+                        # in a previous request (or a stray one) advance our position.
+                        expecting_ack                          .eq(0),
 
                         # Always start our responses with DATA1 pids, per [USB 2.0: 8.5.3].
                         self.interface.tx_data_pid             .eq(1)
@@ -208,9 +215,6 @@ class StandardRequestHandler(ControlRequestHandler):
 
                 # GET_DESCRIPTOR -- The host is asking for a USB descriptor -- for us to "self describe".
                 with m.State('GET_DESCRIPTOR'):
-                    # Keep track of whether we've sent a packet we're expecting an ACK to.
-                    expecting_ack = Signal()
-
                     m.d.comb += [
                         get_descriptor_handler.tx  .attach(tx),
                         handshake_generator.stall  .eq(get_descriptor_handler.stall)
